@@ -260,9 +260,10 @@ fn rand_arg(r: &mut Rng, vars: &[&str]) -> String {
         5 | 6 | 7 => CONSTS[r.below(CONSTS.len())].to_string(),
         8 => format!("[{}, {}]", vars[r.below(vars.len())], vars[r.below(vars.len())]),
         9 => format!("s({})", vars[r.below(vars.len())]),
-        // the anonymous variable as an argument of a call (a clause index must not take it for a constant)
+        // the anonymous variable and function terms as arguments of a call (a clause index must not take them for constants;
+        // bound into a variable a function term reaches the answer: replace_variables resolves it since 8.31)
         10 => "$_".to_string(),
-        _ => CONSTS[r.below(CONSTS.len())].to_string(),
+        _ => ["add(1, 1)", "subtract(3, 2)", "add(1, 2)", "multiply(1, 2)"][r.below(4)].to_string(),
     }
 }
 // a function term as an argument - only for the ground fact predicates: bound into a variable it would reach an answer, and
